@@ -1,4 +1,5 @@
 import FalconModel.ErrSerialize
+import FalconModel.ErrLink
 /-! esdriver — line protocol over the C04 default-rendering model (`Es`).
 
   Strings are hex of the code points < 256 (two digits each), `-` = empty string, `none` = None / absent.
@@ -8,6 +9,9 @@ import FalconModel.ErrSerialize
         each string argument: none | - | hex ; <code>: none | integer
                                                  -> title:given|status [description] [code] [link:given|default]
         (the status line is the fixed token `STATUS`; `uri.encode` is the identity here)
+    link <href> <href_text>                      -> nolink | href=<cps> text=default|given
+        <href>: none | - | dot-separated hex code points (ANY code point, e.g. 2f.25.e9.1f600); <href_text>: none | - | hex
+        `HTTPError.__init__` with the real encoder (`Ek.mkError`: `uri.encode` = `Us.encode`); <cps> = the stored href, same format
     cerror <xml> <handlers> <accept> <status> <resp headers> <error headers>
                                                  -> status=N body=<k> hdrs=<sorted name:value,...> | header-not-supported | unsupported
     cstatus <status> <resp headers> <status headers> <text none|-|hex>
@@ -77,12 +81,22 @@ def showDict (e : HttpError) : String :=
     | .int _ => String.ofList k
     | .link l => "link:" ++ (if l.text == defaultLinkText then "default" else "given"))
 
+def hexNat (s : String) : Nat := s.toList.foldl (fun n c => n * 16 + hv c) 0
+def cpsOf (s : String) : Option Str :=
+  if s == "none" then none else if s == "-" then some [] else some ((s.splitOn ".").map fun t => Char.ofNat (hexNat t))
+def natHex (n : Nat) : String := String.ofList (Nat.toDigits 16 n)
+def showCps (s : Str) : String := if s.isEmpty then "-" else ".".intercalate (s.map fun c => natHex c.toNat)
+
 def step (line : String) : String :=
   match (line.trimAscii.toString.splitOn " ").filter (· != "") with
   | ["choose", x, hs, acc] =>
     showChoice (serializeChoice { xml := x == "1", handlers := parseHandlers hs } (optStr acc))
   | ["todict", t, d, c, h, ht] =>
     showDict (mkError id 0 statusTok (optStr t) (optStr d) none (optStr h) (optStr ht) (if c == "none" then none else c.toInt?))
+  | ["link", h, ht] =>
+    match (Ek.mkError 0 statusTok none none none (cpsOf h) (optStr ht) none).link with
+    | none => "nolink"
+    | some l => s!"href={showCps l.href} text={if l.text == defaultLinkText then "default" else "given"}"
   | ["cerror", x, hs, acc, st, rh, eh] =>
     let r : Resp := { status := 200, headers := (parseHdrs rh).getD [], body := .untouched }
     let e : HttpError := { status := st.toNat!, title := [], description := none, headers := parseHdrs eh, link := none, code := none }
